@@ -257,22 +257,22 @@ Lemma sk_accept_rel : forall a b v,
   let '(nb, eb, errb) := sk_accept b v in
   sk_rel na nb /\ erra = errb.
 Proof.
-  intros a b v (L & F & Z). unfold sk_accept. rewrite <- Z, <- F, <- L.
-  destruct (sk_frozen a).
-  - destruct (negb (sk_haslate a) || cred_less v (sk_late a)); destruct (negb (sk_haslate b) || cred_less v (sk_late b));
-      simpl; repeat split; auto.
-  - destruct (sk_filled a && negb (cred_less v (sk_lowest a))); simpl; repeat split; auto.
+  intros [al af az alt ah] [bl bf bz blt bh] v (L & F & Z). simpl in L, F, Z. subst bl bf bz.
+  unfold sk_accept, sk_rel; simpl.
+  destruct az.
+  - destruct (negb ah || cred_less v alt); destruct (negb bh || cred_less v blt); simpl; repeat split; auto.
+  - destruct (af && negb (cred_less v al)); simpl; repeat split; auto.
 Qed.
 
 Lemma pt_vote_rel : forall a b v, pt_rel a b -> pt_rel (fst (pt_vote a v)) (fst (pt_vote b v)) /\ pv_rel (snd (pt_vote a v)) (snd (pt_vote b v)).
 Proof.
   intros a b v (D & S & G & C1 & C2 & C3 & C4). unfold pt_vote. rewrite <- D, <- G.
-  destruct (existsb (N.eqb (vt_snd v)) (pt_dup a)); simpl; [split; [repeat split; auto|exact I]|].
+  destruct (existsb (N.eqb (vt_snd v)) (pt_dup a)); simpl; [split; [unfold pt_rel; simpl; intuition|exact I]|].
   pose proof (sk_accept_rel (pt_freezer a) (pt_freezer b) v S) as H.
   destruct (sk_accept (pt_freezer a) v) as [[na ea] erra]. destruct (sk_accept (pt_freezer b) v) as [[nb eb] errb].
   destruct H as [(L1 & F1 & Z1) E]. subst errb. destruct S as (L & F & Z).
-  destruct (negb (is_bottom (pt_staging a))); simpl; [split; [repeat split; auto|exact I]|].
-  destruct erra; simpl; split; try exact I; repeat split; auto.
+  destruct (negb (is_bottom (pt_staging a))); simpl; [split; [unfold pt_rel, sk_rel; simpl; intuition|exact I]|].
+  destruct erra; simpl; (split; [unfold pt_rel, sk_rel; simpl; intuition | simpl; auto]).
 Qed.
 
 Lemma pt_checked_vote_rel : forall k a b v,
@@ -318,7 +318,7 @@ Lemma pn_pt_op_rel : forall k A (RA : A -> A -> Prop) a b (f : ptracker -> res (
 Proof.
   intros k A RA a b f (P & V & S) HF. unfold pn_pt_op.
   eapply rq_bind; [apply HF; exact P|].
-  intros [ta xa] [tb xb] [H1 H2]; simpl in *. apply rq_ok. split; simpl; auto. split; [|split]; simpl; auto.
+  intros [ta xa] [tb xb] [H1 H2]; simpl in *. apply rq_ok. split; simpl; [unfold pn_rel; simpl; auto | auto].
 Qed.
 
 (* ---------- proposal store ---------- *)
